@@ -276,14 +276,17 @@ func guardsInto(target *ssa.BasicBlock) []Guard {
 			iff := lastIf(b)
 			g.Ifs = append(g.Ifs, iff)
 			for si, s := range b.Succs {
-				l := append(append([]string{}, lits...), normCond(iff.Cond, si == 0))
-				switch {
-				case leadsTo(s, target):
-					conjs = append(conjs, l)
-				case chain[s] && len(s.Preds) == 1 && s.Preds[0] == b && lastIf(s) != nil:
-					walk(s, l)
-				default:
-					g.PassEdges = append(g.PassEdges, Edge{b, si})
+				// a predicate helper is expanded into the conditions it tests (predDNF): one variant per disjunct
+				for _, variant := range predDNF(iff.Cond, si == 0, 0) {
+					l := append(append([]string{}, lits...), variant...)
+					switch {
+					case leadsTo(s, target):
+						conjs = append(conjs, l)
+					case chain[s] && len(s.Preds) == 1 && s.Preds[0] == b && lastIf(s) != nil:
+						walk(s, l)
+					default:
+						g.PassEdges = append(g.PassEdges, Edge{b, si})
+					}
 				}
 			}
 		}
@@ -567,12 +570,20 @@ func HeldEdges(fn *ssa.Function, re string) []Edge {
 // (ip.go) that fn's family calls from several places the parameters are rendered as the arguments of each of those
 // call sites in turn and the condition must match for every one of them.
 func condHeldMatches(fn *ssa.Function, b *ssa.BasicBlock, cond ssa.Value, pol bool, rx *regexp.Regexp) bool {
+	return condHeldMatchesAny(fn, b, cond, pol, []*regexp.Regexp{rx})
+}
+
+func condHeldMatchesAny(fn *ssa.Function, b *ssa.BasicBlock, cond ssa.Value, pol bool, rxs []*regexp.Regexp) bool {
 	one := func() bool {
-		if matchEither(rx, normCond(cond, pol)) {
-			return true
+		for _, rx := range rxs {
+			if matchEither(rx, normCond(cond, pol)) {
+				return true
+			}
+			if s, ok := normCondInlined(cond, pol); ok && matchEither(rx, s) {
+				return true
+			}
 		}
-		s, ok := normCondInlined(cond, pol)
-		return ok && matchEither(rx, s)
+		return dnfImplies(predDNF(cond, pol, 0), rxs)
 	}
 	h := b.Parent()
 	if h == fn || !NewFns[h] || len(helperSites[h]) < 2 {
